@@ -67,12 +67,17 @@ func suiteDeterminism(e *Env) {
 			e.Obs("setup-error %v", err)
 			return
 		}
-		d := &hdrv{c: c}
+		mode := 0
+		if m, ok := opts["pp"]; ok {
+			mode = int(m[0] - '0')
+		}
+		d := &hdrv{c: c, replaying: true, ppMode: mode}
 		for _, b := range h.Blocks {
 			for _, t := range b.Txs {
 				raw, _ := base64.StdEncoding.DecodeString(t)
 				d.pend = append(d.pend, raw)
 			}
+			d.userTxs = b.User
 			d.block(time.Duration(b.Dt))
 		}
 		for _, l := range d.lines {
